@@ -128,8 +128,13 @@ extern "C" int __wrap_mprotect(void* p, size_t len, int prot)
                 return -1;
             }
         }
+        if (sim::g_upstream_hook)
+            sim::g_upstream_hook("upstream.commit");
         if (!h.commit(p, len, on))
         {
+            // the kernel would answer ENOMEM, or - worse - change a mapping that somebody else has made there since
+            h.set_pending(std::string(on ? "commit" : "decommit") + " (mprotect) of a range that is not, or no "
+                          "longer, part of a live mapping of the caller");
             errno = ENOMEM;
             return -1;
         }
@@ -142,7 +147,11 @@ extern "C" int __wrap_madvise(void* p, size_t len, int advice)
 {
     auto& h = SimHeap::get();
     if (h.contains(p))
+    {
+        if (!h.find(p))
+            h.set_pending("madvise on a range that is not, or no longer, part of a live mapping of the caller");
         return 0; // content loss is modelled at decommit (garbage on the next commit)
+    }
     return __real_madvise(p, len, advice);
 }
 
